@@ -198,6 +198,12 @@ func RunCheck(o CheckOpts) int {
 	}
 	os.RemoveAll(outDir)
 	srs := SolveAll(g, header, results, outDir, o.Par, timeout, o.Tier == "thorough")
+	for _, r := range results {
+		// assumptions registered while the per-function headers were assembled (instance axioms about literals)
+		for _, a := range r.Assumed {
+			assumptions[a] = true
+		}
+	}
 	// static checks
 	staticRes := g.RunStatic(o, spec)
 	// recorded weakenings of the deepcopy predicate are findings, not silent exceptions
